@@ -131,6 +131,12 @@ class Interp:
             s = cb.Hemisphere(a["c"], a["r"], a["n"])
         elif k == "revolvedring":
             s = cb.RevolvedRing(a["p1"], a["p2"], cb.Face([self.pt(p) for p in a["face"]]), a.get("n", 8))
+        elif k == "stack":
+            s = cb.ExtrudedStack(cb.Grid(a["p1"], a["p2"], a["n1"], a["n2"]), a["amount"], a["repeats"])
+        elif k == "tjoint":
+            s = cb.TJoint(a["start"], a["center"], a["r"])
+        elif k == "ljoint":
+            s = cb.LJoint(a["start"], a["center"], a["r"])
         else:
             raise ProgramError("shape kind " + k)
         self.env[op["name"]] = s
@@ -183,6 +189,13 @@ class Interp:
 
     def op_patch(self, op) -> None:
         self.env[op["target"]].set_patch(op["side"], op["name"])
+
+    def op_sub_chop(self, op) -> None:
+        """chop one operation of a multi-operation entity"""
+        self.env[op["target"]].operations[op["index"]].chop(op["axis"], **op["args"])
+
+    def op_sub_patch(self, op) -> None:
+        self.env[op["target"]].operations[op["index"]].set_patch(op["side"], op["name"])
 
     def op_shape_patch(self, op) -> None:
         s = self.env[op["target"]]
